@@ -91,6 +91,24 @@ def selftest(tier, seed):
     r = subprocess.run(["java", "-cp", TLA_JAR, "tlc2.TLC", "-workers", "2", "-metadir", os.path.join(wd, "meta2"), "-cleanup", "-noGenerateSpecTE", "-config", "AttrOld.cfg", "AttrOld.tla"],
                        cwd=wd, env=ENV_BASE, capture_output=True, text=True)
     results.append(("Attr.tla: a tokenizer that does not consume the comma after a group violates Refines", "Invariant Refines is violated" in r.stdout))
+
+    # EdgeImpl.tla: an algorithm that folds ranges two bytes apart (instead of one) into one comparison is not exact
+    src = open(os.path.join(SPEC, "EdgeImpl.tla")).read().replace("Append(@.except, r[1] - 1)", "Append(@.except, r[1])").replace("MODULE EdgeImpl", "MODULE EdgeImplBad")
+    with open(os.path.join(wd, "EdgeImplBad.tla"), "w") as f:
+        f.write(src)
+    with open(os.path.join(wd, "EdgeImplBad.cfg"), "w") as f:
+        f.write("SPECIFICATION Spec\nCHECK_DEADLOCK FALSE\nINVARIANTS\n  ClassOk\n")
+    r = subprocess.run(["java", "-cp", TLA_JAR, "tlc2.TLC", "-workers", "2", "-metadir", os.path.join(wd, "meta3"), "-cleanup", "-noGenerateSpecTE", "-config", "EdgeImplBad.cfg", "EdgeImplBad.tla"],
+                       cwd=wd, env=dict(ENV_BASE, FAM="small", MAXRANGES="2"), capture_output=True, text=True)
+    results.append(("EdgeImpl.tla: recording the wrong byte as the exception of a folded range violates CmpExact (ClassOk)", "Invariant ClassOk is violated" in r.stdout))
+    src = open(os.path.join(SPEC, "EdgeImpl.tla")).read().replace("/\\ r[2] + 1 < q[1]", "/\\ r[2] + 2 < q[1]").replace("MODULE EdgeImpl", "MODULE EdgeImplBad2")
+    with open(os.path.join(wd, "EdgeImplBad2.tla"), "w") as f:
+        f.write(src)
+    with open(os.path.join(wd, "EdgeImplBad2.cfg"), "w") as f:
+        f.write("SPECIFICATION Spec\nCHECK_DEADLOCK FALSE\nINVARIANTS\n  StateOk\n")
+    r = subprocess.run(["java", "-cp", TLA_JAR, "tlc2.TLC", "-workers", "2", "-metadir", os.path.join(wd, "meta4"), "-cleanup", "-noGenerateSpecTE", "-config", "EdgeImplBad2.cfg", "EdgeImplBad2.tla"],
+                       cwd=wd, env=dict(ENV_BASE, FAM="small", MAXRANGES="2"), capture_output=True, text=True)
+    results.append(("EdgeImpl.tla: a can_error that overlooks a gap of one byte violates CanErrorExact (StateOk)", "Invariant StateOk is violated" in r.stdout))
     ok = True
     for name, good in results:
         print("%s  %s" % ("ok  " if good else "FAIL", name))
